@@ -1,0 +1,71 @@
+//go:build verif
+
+// Contracts for the deductive verifier in /verif (comment-only file; no code).
+// Syntax: see /verif/DESIGN.md section 2.2.
+
+package auth
+
+// ---- C18: rule filters match topics level by level ----
+// the level sequence of a filter or topic
+// verif:def lv(s string) []string = splitOf(s, "/")
+// verif:def levelOK(f string, t string, i int) bool = lv(f)[i] == "+" || lv(f)[i] == lv(t)[i]
+// verif:def noHash(f string) bool = forall i int :: 0 <= i && i < len(lv(f)) ==> lv(f)[i] != "#"
+// the name the ledger contracts use for "the filter matches the topic" (MatchTopic is a deterministic function)
+// verif:spec fmatch(string, string) bool
+// verif:func auth.MatchTopic
+//@ axiom matched == fmatch(filter, topic)
+//@ ensures C18-plus-matches-exactly-one-level-and-plain-levels-only-themselves: noHash(filter) ==> (matched <==> (len(lv(filter)) == len(lv(topic)) && (forall i int :: 0 <= i && i < len(lv(filter)) ==> levelOK(filter, topic, i))))
+//@ ensures C18-trailing-hash-matches-one-or-more-further-levels: lv(filter)[len(lv(filter)) - 1] == "#" && (forall i int :: 0 <= i && i < len(lv(filter)) - 1 ==> lv(filter)[i] != "#") ==> (matched <==> (len(lv(topic)) >= len(lv(filter)) && (forall i int :: 0 <= i && i < len(lv(filter)) - 1 ==> levelOK(filter, topic, i))))
+// verif:loop auth.MatchTopic 1
+//@ invariant 0 <= i && i <= len(filterParts) && i <= len(topicParts) && filterParts == lv(filter) && topicParts == lv(topic)
+//@ invariant forall j int :: 0 <= j && j < i ==> filterParts[j] != "#" && (filterParts[j] == "+" || filterParts[j] == topicParts[j])
+//@ decreases len(filterParts) - i
+
+// verif:func auth.RString.FilterMatches
+//@ ensures r0 == fmatch(r, a)
+
+// client id / user name / remote address patterns: a deterministic function of pattern and value
+// verif:spec rmatch(string, string) bool
+// verif:func auth.RString.Matches
+//@ axiom r0 == rmatch(r, a)
+//@ ensures empty-and-star-match-everything: (r == "" || r == "*") ==> r0
+//@ ensures equal-matches: a == r ==> r0
+
+// ---- C18: connect decisions ----
+// verif:def un(cl *mqtt.Client) string = str(cl.Properties.Username)
+// verif:def userKnown(l *Ledger, cl *mqtt.Client, pk packets.Packet) bool = l.Users != nil && has(l.Users, un(cl)) && l.Users[un(cl)].Password != "" && l.Users[un(cl)].Password == str(pk.Connect.Password)
+// verif:def authM(l *Ledger, cl *mqtt.Client, pk packets.Packet, k int) bool = rmatch(l.Auth[k].Client, cl.ID) && rmatch(l.Auth[k].Username, un(cl)) && rmatch(l.Auth[k].Password, str(pk.Connect.Password)) && rmatch(l.Auth[k].Remote, cl.Net.Remote)
+// verif:func auth.Ledger.AuthOk
+//@ requires cl != nil
+//@ ensures C18-users-own-entry-takes-precedence: userKnown(l, cl, pk) ==> n == 0 && (ok <==> !l.Users[un(cl)].Disallow)
+//@ ensures C18-first-matching-rule-in-list-order-decides: !userKnown(l, cl, pk) ==> (forall k int :: 0 <= k && k < len(l.Auth) && authM(l, cl, pk, k) && (forall j int :: 0 <= j && j < k ==> !authM(l, cl, pk, j)) ==> n == k && (ok <==> l.Auth[k].Allow))
+//@ ensures C18-no-matching-rule-refuses: !userKnown(l, cl, pk) && (forall k int :: 0 <= k && k < len(l.Auth) ==> !authM(l, cl, pk, k)) ==> n == 0 && !ok
+// verif:loop auth.Ledger.AuthOk 1
+//@ invariant forall j int :: 0 <= j && j <= rangeindex ==> !authM(l, cl, pk, j)
+
+// ---- C18: publish / subscribe decisions ----
+// verif:def grants(a Access, write bool) bool = write ? (a == WriteOnly || a == ReadWrite) : (a == ReadOnly || a == ReadWrite)
+// verif:def userHit(l *Ledger, cl *mqtt.Client) bool = l.Users != nil && has(l.Users, un(cl)) && len(l.Users[un(cl)].ACL) > 0
+// verif:def uacl(l *Ledger, cl *mqtt.Client) Filters = l.Users[un(cl)].ACL
+// verif:def userMatch(l *Ledger, cl *mqtt.Client, topic string) bool = userHit(l, cl) && (exists f RString :: has(uacl(l, cl), f) && fmatch(f, topic))
+// verif:def aclM(l *Ledger, cl *mqtt.Client, k int) bool = rmatch(l.ACL[k].Client, cl.ID) && rmatch(l.ACL[k].Username, un(cl)) && rmatch(l.ACL[k].Remote, cl.Net.Remote)
+// verif:def applies(l *Ledger, cl *mqtt.Client, topic string, k int) bool = aclM(l, cl, k) && (len(l.ACL[k].Filters) == 0 || (exists f RString :: has(l.ACL[k].Filters, f) && fmatch(f, topic)))
+// verif:def rgrants(l *Ledger, topic string, write bool, k int) bool = len(l.ACL[k].Filters) == 0 || (exists f RString :: has(l.ACL[k].Filters, f) && grants(l.ACL[k].Filters[f], write) && fmatch(f, topic))
+// verif:func auth.Ledger.ACLOk
+//@ requires cl != nil
+// a user's own rules take precedence, and the answer does not depend on the order in which the rule map is walked:
+//@ ensures C18-users-own-granting-rule-decides-whatever-the-map-order: forall f RString :: userHit(l, cl) && has(uacl(l, cl), f) && fmatch(f, topic) && grants(uacl(l, cl)[f], write) ==> ok && n == 0
+//@ ensures C18-users-own-rules-deny-when-none-of-the-matching-ones-grants: forall g RString :: userHit(l, cl) && has(uacl(l, cl), g) && fmatch(g, topic) && (forall f RString :: has(uacl(l, cl), f) && fmatch(f, topic) ==> !grants(uacl(l, cl)[f], write)) ==> !ok && n == 0
+//@ ensures C18-first-applicable-global-rule-in-list-order-decides: !userMatch(l, cl, topic) ==> (forall k int :: 0 <= k && k < len(l.ACL) && applies(l, cl, topic, k) && (forall j int :: 0 <= j && j < k ==> !applies(l, cl, topic, j)) ==> n == k && (ok <==> rgrants(l, topic, write, k)))
+//@ ensures C18-no-applicable-rule-permits: !userMatch(l, cl, topic) && (forall k int :: 0 <= k && k < len(l.ACL) ==> !applies(l, cl, topic, k)) ==> n == 0 && ok
+// the user's own rules (map range 1); the global rules in list order (loop 2) with their three filter scans (map ranges 2-4)
+// verif:loop auth.Ledger.ACLOk 1
+//@ invariant forall f RString :: visited1[f] ==> !fmatch(f, topic)
+// verif:loop auth.Ledger.ACLOk 2
+//@ invariant forall j int :: 0 <= j && j <= rangeindex ==> !applies(l, cl, topic, j)
+// verif:loop auth.Ledger.ACLOk 3
+//@ invariant forall f RString :: visited2[f] ==> !(grants(rule.Filters[f], write) && fmatch(f, topic))
+// verif:loop auth.Ledger.ACLOk 4
+//@ invariant forall f RString :: visited3[f] ==> !(grants(rule.Filters[f], write) && fmatch(f, topic))
+// verif:loop auth.Ledger.ACLOk 5
+//@ invariant forall f RString :: visited4[f] ==> !fmatch(f, topic)
